@@ -63,22 +63,7 @@ def rules(ctx):
             ctx.inst('R05.1', fn, '%s returns a fresh object' % fn.qual, not alias,
                      "result is a fresh object" if not alias else
                      "%s can return an operand itself (%s)" % (fn.qual, alias))
-    # result type: copy() constructs through the class; the operators start from self.copy()
-    for name in ('__add__', '__sub__', '__mul__', '__pow__', '__truediv__', '__floordiv__'):
-        fn = da.methods.get(name)
-        if fn is None:
-            continue
-        sn = R.self_name(fn)
-        rets = [n for n in walk_no_nested(strip_docstring(fn.node.body)) if isinstance(n, ast.Return)]
-        ok = False
-        for r in rets:
-            if isinstance(r.value, ast.Name):
-                for s_, v in assignments_to(fn.node, r.value.id):
-                    if isinstance(v, ast.Call) and src(v) in ('%s.copy()' % sn, '%s.__class__(%s)' % (sn, sn), 'type(%s)(%s)' % (sn, sn)):
-                        ok = True
-        ctx.inst('R05.1', fn, 'def %s' % name, ok,
-                 "result starts as a copy of self (type of the model operand)" if ok else
-                 "%s does not build its result from self.copy(): result type / operand immutability not guaranteed" % name)
+    derived_from_copy(ctx, 'R05.1')
 
     # ---------------------------------------------------------------- R05.2
     for name in INPLACE:
@@ -403,3 +388,38 @@ def imul_rules(ctx, rid):
                          "a path through the model-operand branch returns without emptying self: multiplying by "
                          "an empty model leaves self unchanged instead of zero")
 
+
+
+def derived_from_copy(ctx, rid):
+    """The non-in-place binary operators build their result from self.copy() on every path (type of the model
+    operand; for PCBO/PCSO the copy constructor carries the ancilla counter and the recorded constraints over)."""
+    P, R = ctx.prog, ctx.res
+    da = P.cls('DictArithmetic')
+    for name in ('__add__', '__sub__', '__mul__', '__pow__', '__truediv__', '__floordiv__'):
+        fn = da.methods.get(name)
+        if fn is None:
+            continue
+        sn = R.self_name(fn)
+        rets = [n for n in walk_no_nested(strip_docstring(fn.node.body)) if isinstance(n, ast.Return)]
+        ok = bool(rets)
+        why = ''
+        for r in rets:
+            if isinstance(r.value, ast.Name):
+                defs = [v for s_, v in assignments_to(fn.node, r.value.id)]
+                plain = [v for v in defs if isinstance(v, ast.AST)]
+                good = [v for v in plain if isinstance(v, ast.Call) and src(v) in (
+                    '%s.copy()' % sn, '%s.__class__(%s)' % (sn, sn), 'type(%s)(%s)' % (sn, sn))]
+                if not plain or len(good) != len(plain):
+                    ok = False
+                    why = [src(v) for v in plain if v not in good][:1]
+            elif isinstance(r.value, ast.BinOp) or isinstance(r.value, ast.Call):
+                # delegating forms such as `return self + other` / `return -1 * self + other` are built from operators
+                # that are themselves checked here
+                continue
+            else:
+                ok = False
+                why = [src(r.value)]
+        ctx.inst(rid, fn, 'def %s' % name, ok,
+                 "result is built from self.copy() on every path" if ok else
+                 "%s builds its result from %s instead of self.copy(): the result of arithmetic on a PCBO/PCSO loses the "
+                 "ancilla counter and the recorded constraints (and the type guarantee rests on copy())" % (name, why))
